@@ -273,6 +273,9 @@ pub struct ClientSpec {
     pub requests: usize,
     /// partial writes on the REP -> client direction: bytes per write call (0 = unrestricted)
     pub per_call: usize,
+    /// raw clients only: announce a present-but-empty Identity (as libzmq REQ sockets do)
+    #[serde(default)]
+    pub empty_identity: bool,
 }
 
 #[derive(Debug, Clone, Serialize, Deserialize, PartialEq, Eq, Hash)]
@@ -318,7 +321,7 @@ pub fn conc_outcome(c: &ConcCase) -> Outcome {
                     clients.push(ClientRt::Lib { sock: s, to_rep: ab, from_rep: ba, call: None, phase: 0 });
                 } else {
                     let l = sim.link();
-                    l.raw_handshake("REQ", None);
+                    l.raw_handshake("REQ", if cs.empty_identity { Some(&[]) } else { None });
                     let a = sim.attach(rep, &l);
                     let _ = sim.run(a).await;
                     if cs.per_call > 0 {
@@ -567,6 +570,9 @@ pub fn conc_outcome(c: &ConcCase) -> Outcome {
     if c.clients.iter().any(|x| x.per_call > 0) {
         o.class("partial-writes");
     }
+    if c.clients.iter().filter(|x| !x.lib && x.empty_identity).count() >= 2 {
+        o.class("several-clients-announcing-an-empty-identity");
+    }
     for p in panics {
         o.fail(format!("C08/panic/{}", panic_sig(&p)), p);
     }
@@ -622,6 +628,7 @@ pub fn run(ctx: &Ctx) -> (Report, PropertyMeta) {
                     lib: s.bool(),
                     requests: s.range(1, 4),
                     per_call: s.pick(&[0usize, 0, 1, 3, 17]),
+                    empty_identity: s.chance(1, 3),
                 })
                 .collect();
             let slen = s.range(30, 250);
@@ -650,6 +657,7 @@ pub fn run(ctx: &Ctx) -> (Report, PropertyMeta) {
     health_abs(&mut report, "req-with-failing-sends", 500);
     health_abs(&mut report, "overlapping-requests", 500);
     health_abs(&mut report, "partial-writes", 300);
+    health_abs(&mut report, "several-clients-announcing-an-empty-identity", 300);
 
     let meta = PropertyMeta {
         level: "exploration",
@@ -677,6 +685,7 @@ pub fn gen_conc_pub(s: &mut Src<'_>) -> ConcCase {
             lib: s.bool(),
             requests: s.range(1, 4),
             per_call: s.pick(&[0usize, 0, 1, 3, 17]),
+            empty_identity: s.chance(1, 3),
         })
         .collect();
     let slen = s.range(30, 250);
